@@ -1,5 +1,7 @@
 package sem
 
+import "encoding/binary"
+
 // phase 3 of the translator (ext3.go): switch without a tag, sub-slices handed to callees that
 // store into them, calls of methods of the same pointer receiver
 
@@ -186,4 +188,105 @@ func (p *Acc) NilSafe(k int) int {
 		p.A += k
 	}
 	return p.A
+}
+
+// ---- windows into the memory of an abstract object (bufiox.Writer.Malloc) ----
+
+type Arena interface {
+	Alloc(n int) ([]byte, error)
+	Put(b []byte) (int, error)
+}
+
+func ArenaFill(a Arena, n int, v byte) (first []byte, err error) {
+	var buf []byte
+	buf, err = a.Alloc(n)
+	if err != nil {
+		return nil, err
+	}
+	first = buf[0:2]
+	last := buf[n-1:]
+	for i := 0; i < len(buf); i++ {
+		buf[i] = v + byte(i)
+	}
+	binary.BigEndian.PutUint16(first, 0x0102)
+	last[0] = 9
+	if _, err = a.Put(unsafeBytes("xy")); err != nil {
+		return first, err
+	}
+	mid, err := a.Alloc(3)
+	if err != nil {
+		return first, err
+	}
+	binary.BigEndian.PutUint32(buf[1:5], 0xA0B0C0D0)
+	mid[2] = v
+	whole := buf[:]
+	whole[len(whole)-2] = 7
+	return first, nil
+}
+
+func unsafeBytes(s string) []byte { return []byte(s) }
+
+// ---- a parameter of a struct type; v, ok := m[k] ----
+
+type Cfg struct {
+	A int
+	S string
+	M map[string]string
+}
+
+func CfgUse(c Cfg, k string) (int, string, bool) {
+	v, ok := c.M[k]
+	if !ok {
+		return c.A, c.S, ok
+	}
+	c.A += len(v)
+	c.S = c.S + v
+	return c.A, c.S, ok
+}
+
+func MapOkInt(m map[int8]int, k int8) (r int) {
+	if v, ok := m[k]; ok {
+		r = v + 1
+	} else if _, ok2 := m[k+1]; ok2 {
+		r = -2
+	}
+	return r
+}
+
+// ---- range over a []byte ----
+
+func RangeBytes(b []byte, stop byte) (sum int, idx int, n int) {
+	for i, x := range b {
+		if x == stop {
+			break
+		}
+		if x == 0 {
+			continue
+		}
+		sum += int(x) * i
+		idx = i
+	}
+	for i := range b[1:] {
+		n += i
+	}
+	for _, x := range b {
+		if x == 255 {
+			return -1, -1, -1
+		}
+		n += int(x)
+	}
+	for range b {
+		n++
+	}
+	return
+}
+
+func RangeBytesNested(b []byte, k int) int {
+	s := 0
+	for j := 0; j < k; j++ {
+		for i, x := range b {
+			s += int(x) + i*j
+		}
+	}
+	return s
 }
